@@ -382,6 +382,81 @@ func main() {
 	return nil
 }
 
+// command-line path: a main package importing a second user package, both with constrained files,
+// built with the gopherjs CLI and --tags; every selected file of both packages registers itself.
+func checkCLI(rt *rapid.T) *drv.Fail {
+	tagPool := []string{"t1", "t2", "t3", "t4"}
+	dm := genDirTags(rt, tagPool)
+	dd := genDirTags(rt, tagPool)
+	dd.Tags = dm.Tags
+	dd.JSFiles, dm.JSFiles = nil, nil
+	id := drv.NewID("c18c_")
+	files := map[string]string{"go.mod": "module " + id + "\n\ngo 1.20\n"}
+	for _, f := range dm.Files {
+		f.Pkg = "main"
+		if strings.HasSuffix(f.Name, "_test.go") {
+			continue
+		}
+		files[f.Name] = strings.Replace(f.source(""), "register(", "reg.Register(\"main/\" + ", 1)
+		if !f.Cgo {
+			files[f.Name] = strings.Replace(files[f.Name], "package main\n", "package main\n\nimport \""+id+"/reg\"\n", 1)
+		} else {
+			files[f.Name] = strings.Replace(files[f.Name], "import \"C\"", "import \"C\"\nimport \""+id+"/reg\"", 1)
+		}
+	}
+	for _, f := range dd.Files {
+		f.Pkg = "dep"
+		if strings.HasSuffix(f.Name, "_test.go") {
+			continue
+		}
+		src := strings.Replace(f.source(""), "register(", "reg.Register(\"dep/\" + ", 1)
+		if !f.Cgo {
+			src = strings.Replace(src, "package dep\n", "package dep\n\nimport \""+id+"/reg\"\n", 1)
+		} else {
+			src = strings.Replace(src, "import \"C\"", "import \"C\"\nimport \""+id+"/reg\"", 1)
+		}
+		files["dep/"+f.Name] = src
+	}
+	files["dep/zdep.go"] = "package dep\n\nfunc Touch() {}\n"
+	files["reg/reg.go"] = "package reg\n\nvar Names []string\n\nfunc Register(n string) { Names = append(Names, n) }\n"
+	files["zmain.go"] = "package main\n\nimport (\n\t\"" + id + "/dep\"\n\t\"" + id + "/reg\"\n)\n\nfunc main() {\n\tdep.Touch()\n\tn := reg.Names\n\tfor i := 0; i < len(n); i++ {\n\t\tfor j := i + 1; j < len(n); j++ {\n\t\t\tif n[j] < n[i] {\n\t\t\t\tn[i], n[j] = n[j], n[i]\n\t\t\t}\n\t\t}\n\t}\n\tfor _, x := range n {\n\t\tprintln(x)\n\t}\n}\n"
+	dir := filepath.Join(drv.Scratch(), id)
+	drv.WriteTree(dir, files)
+	defer os.RemoveAll(dir)
+	wm, _, i1 := dm.expected()
+	wd, _, i2 := dd.expected()
+	var want []string
+	for _, g := range wd {
+		want = append(want, "dep/"+g)
+	}
+	for _, g := range wm {
+		want = append(want, "main/"+g)
+	}
+	sort.Strings(want)
+	ev.Case("cli:"+drv.Hash(fmt.Sprint(files)), i1 || i2)
+	ev.Count("cli_cases", 1)
+	args := []string{"build", "-o", "out.js"}
+	if len(dm.Tags) > 0 {
+		args = append(args, "--tags", strings.Join(dm.Tags, " "))
+	}
+	args = append(args, ".")
+	_, se, code, to := drv.RunCmd(5*60*1e9, drv.NativeEnv("GOPHERJS_SKIP_VERSION_CHECK=true"), dir, drv.CLI(), args...)
+	if to {
+		drv.Infra("gopherjs CLI timed out")
+	}
+	if code != 0 {
+		return drv.Failf(files, "gopherjs %v failed: %s", args, se)
+	}
+	o := drv.RunNode(filepath.Join(dir, "out.js"), nil, drv.NodeOpts{})
+	if o.End != "exit0" {
+		return drv.Failf(files, "program built by the CLI ended %s %s\n%s", o.End, o.Msg, o.Stderr)
+	}
+	if strings.Join(o.Trace, "\n") != strings.Join(want, "\n") {
+		return drv.Failf(files, "gopherjs build --tags %q: files taking part in the build:\n%s\nexpected:\n%s", strings.Join(dm.Tags, " "), strings.Join(o.Trace, "\n"), strings.Join(want, "\n"))
+	}
+	return nil
+}
+
 // ---------- standard library corpus ----------
 
 func goroot() string {
@@ -514,14 +589,15 @@ func headerConstraint(src string) (expr constraint.Expr, cgo bool, ignore bool) 
 func TestCheck(t *testing.T) {
 	ev = drv.NewEvidence("C18", "exploration", rule)
 	ev.Assume("go/build/constraint is used to parse expressions; the tag predicate and the file-name rule are independent transcriptions of the documentation")
-	nDirs, nRun := 6000, 40
+	nDirs, nRun, nCLI := 6000, 40, 25
 	if drv.Thorough() {
-		nDirs, nRun = 200000, 1500
+		nDirs, nRun, nCLI = 200000, 1500, 600
 	}
 	if rp := os.Getenv("VERIF_REPLAY"); rp != "" {
 		fmt.Println("C18 replays are re-generated from the seed printed in DESCRIPTION.txt; run the quick tier")
 	}
 	drv.RapidCheck(t, ev, "select", nDirs, checkDir)
 	drv.RapidCheck(t, ev, "run", nRun, checkRun)
+	drv.RapidCheck(t, ev, "cli", nCLI, checkCLI)
 	stdCorpus()
 }
